@@ -206,6 +206,10 @@ package tls
 //@   at call crypto/ecdsa.Verify assert arg0 == unboxed(cert.PublicKey, *zcrypto_x509.AugmentedECDSA).Pub && same(arg1, digest)
 //@   at call crypto/dsa.Verify assert arg0 == unboxed(cert.PublicKey, *crypto_dsa.PublicKey) && same(arg1, digest)
 //@   ensures  [short] len(sig) < 2 ==> result1 != nil
+// C28 "logged signature and hash algorithms are those named on the wire": in TLS 1.2 the
+// SignatureAndHashAlgorithm record kept for the log is the two bytes of the message, whatever
+// the outcome of the verification
+//@   ensures  [logwire] ka.version >= VersionTLS12 && len(sig) >= 2 ==> ka.sh.Hash == old(sig[0]) && ka.sh.Signature == old(sig[1])
 //@   ensures  [valid] result1 == nil ==> ka.valid && vpRaw(ka, sig)
 //@   ensures  [sigalg12] result1 == nil && ka.version >= VersionTLS12 ==> old(sig[1]) == ka.sigType && hashIdOK(old(sig[0]))
 //@   ensures  [keytype] result1 == nil ==> (ka.sigType == signatureRSA && ltRSA(cert.PublicKey)) || (ka.sigType == signatureECDSA && typeis(cert.PublicKey, *zcrypto_x509.AugmentedECDSA)) || (ka.sigType == signatureDSA && typeis(cert.PublicKey, *crypto_dsa.PublicKey))
